@@ -40,6 +40,11 @@ def entry(cls, name, use_bias=True, activation="relu", extra=None):
     cfg.update({"axis": [3], "momentum": 0.99})
   if cls == "ReLU":
     cfg.update({"max_value": None, "negative_slope": 0.0, "threshold": 0.0})
+  if cls == "ReLU_leaky":            # the same Keras ReLU layer with a positive slope
+    cls = "ReLU"
+    cfg.update({"max_value": None, "negative_slope": 0.25, "threshold": 0.0})
+  if cls == "LeakyReLU":
+    cfg.update({"alpha": 0.3})
   cfg.update(extra or {})
   return {"class_name": cls, "name": name, "config": cfg, "inbound_nodes": [[["prev", 0, 0, {}]]]}
 
@@ -104,6 +109,23 @@ def oracle(e, qc, bits):
     e["class_name"] = kind
     cfg["activation"] = q if q else qact(cfg["activation"], bits)
     return e
+  if cls in ("ReLU", "LeakyReLU"):
+    # a ReLU-family layer becomes QActivation when a QActivation entry applies: a plain string is the activation;
+    # a map is looked up with "relu" (slope 0) or "leakyrelu" (positive slope); the ReLU-specific keys go away
+    q = lookup(qc, name, "QActivation")
+    if q is None:
+      return e
+    slope = cfg["alpha"] if cls == "LeakyReLU" else cfg["negative_slope"]
+    qn = "leakyrelu" if slope > 0 else "relu"
+    if isinstance(q, dict) and not q.get(qn, None):
+      return e
+    e["class_name"] = "QActivation"
+    for k in (("alpha",) if cls == "LeakyReLU" else ("max_value", "negative_slope", "threshold")):
+      del cfg[k]
+    if isinstance(q, dict):
+      q = q[qn]
+    cfg["activation"] = q
+    return e
   if cls == "BatchNormalization":
     if name not in qc and "QBatchNormalization" not in qc:
       return e
@@ -129,10 +151,15 @@ def oracle(e, qc, bits):
 
 def qconfig(cls, name, sel):
   """quantizer dictionary for a selection pattern."""
-  qcls = {"Activation": "QActivation", "BatchNormalization": "QBatchNormalization"}.get(cls, "Q" + cls)
+  qcls = {"Activation": "QActivation", "BatchNormalization": "QBatchNormalization", "ReLU": "QActivation",
+          "ReLU_leaky": "QActivation", "LeakyReLU": "QActivation"}.get(cls, "Q" + cls)
   def body(tag):
     if cls == "Activation":
       return "quantized_relu(3)#" + tag
+    if cls in ("ReLU", "ReLU_leaky", "LeakyReLU"):
+      if tag == "name":
+        return "quantized_relu(3)#name"
+      return {"relu": "quantized_relu(4)#map", "leakyrelu": "quantized_relu(4,negative_slope=0.25)#map"}
     if cls == "BatchNormalization":
       return {"gamma_quantizer": "G#" + tag, "beta_quantizer": "B#" + tag}
     if cls in ("AveragePooling2D", "GlobalAveragePooling2D"):
@@ -151,10 +178,10 @@ def qconfig(cls, name, sel):
     # the name entry configures only the weight quantizer; the class entry is complete: the name entry wins as
     # a whole, so the layer gets NO bias / activation quantizer from the class entry
     wkey = "depthwise_quantizer" if cls == "DepthwiseConv2D" else ("average_quantizer" if "Pooling" in cls else "kernel_quantizer")
-    qc[name] = {wkey: "ONLY#name"} if cls not in ("Activation", "BatchNormalization") else body("name")
+    qc[name] = {wkey: "ONLY#name"} if cls not in ("Activation", "BatchNormalization", "ReLU", "ReLU_leaky", "LeakyReLU") else body("name")
     qc[qcls] = body("class")
   if sel == "partial_class":
-    qc[qcls] = {"bias_quantizer": "only-bias"} if cls not in ("Activation", "BatchNormalization") else {}
+    qc[qcls] = {"bias_quantizer": "only-bias"} if cls not in ("Activation", "BatchNormalization", "ReLU", "ReLU_leaky", "LeakyReLU") else {}
   return qc
 
 
@@ -203,8 +230,9 @@ def mq_scenario(cls, sel, use_bias, act, transfer):
       return s
     layers = got["config"]["layers"]
     exp = oracle(target, snap_qc, 4)
-    selected = exp["class_name"] != cls
-    s.claim("selected_iff", (layers[1]["class_name"] != cls) == selected)
+    cls_json = target["class_name"]
+    selected = exp["class_name"] != cls_json
+    s.claim("selected_iff", (layers[1]["class_name"] != cls_json) == selected)
     if layers[1] != exp:
       s.info["raised"] = "entry mismatch: got %r expected %r" % (layers[1], exp)
     s.claim("entry_as_specified", layers[1] == exp)
@@ -224,14 +252,14 @@ def mq_scenario(cls, sel, use_bias, act, transfer):
 def cases(tier):
   out = []
   classes = WEIGHT + ["DepthwiseConv2D", "SimpleRNN", "LSTM", "GRU", "Activation", "BatchNormalization",
-                      "AveragePooling2D", "GlobalAveragePooling2D", "Flatten"]
+                      "AveragePooling2D", "GlobalAveragePooling2D", "Flatten", "ReLU", "ReLU_leaky", "LeakyReLU"]
   for cls in classes:
     for sel in ("none", "name", "class", "both", "partial_class", "partial_name_plus_class"):
       for ub in (True, False):
-        if cls in ("Activation", "BatchNormalization", "AveragePooling2D", "GlobalAveragePooling2D", "Flatten") and not ub:
+        if cls in ("Activation", "BatchNormalization", "AveragePooling2D", "GlobalAveragePooling2D", "Flatten", "ReLU", "ReLU_leaky", "LeakyReLU") and not ub:
           continue
         for act in ("relu", "linear", "softmax"):
-          if cls in ("BatchNormalization", "AveragePooling2D", "GlobalAveragePooling2D", "Flatten") and act != "relu":
+          if cls in ("BatchNormalization", "AveragePooling2D", "GlobalAveragePooling2D", "Flatten", "ReLU", "ReLU_leaky", "LeakyReLU") and act != "relu":
             continue
           out.append(Case(PROP, MQ, "%s_%s_bias%d_%s" % (cls, sel, ub, act), mq_scenario(cls, sel, ub, act, False),
                           replay_kind=None, assumptions=ASSUME, term_mode=True))
